@@ -7,11 +7,13 @@
 (* (and two models): the algebra of apply / un-apply and the fixed-point    *)
 (* theorems of the ML updates (F1-F4).                                      *)
 EXTENDS MLNorm
-CONSTANTS MaxN, MaxR, MaxCellsM5, MlN, MlR, Families
-MlExp == {-1, 0, 1}
+CONSTANTS MaxN, MaxR, MaxCellsM5, MlN, MlR, MlLow, Families,
+          Shrink     \* 0; 1 = negative model: fan data with a half fan size one too small (must violate M2)
+MlExp == (-MlLow)..1     \* exponents of the efficiencies in the exhaustive part
 VARIABLES mode, g, k, memo, x
 
 vars == << mode, g, k, memo, x >>
+FG(c) == [FanGeomOf(c) EXCEPT !.h = @ - Shrink]
 
 Configs ==
   { c \in [N : { n \in 4..MaxN : n % 2 = 0 }, R : 1..MaxR, pbT : 1..MaxN, vT : 0..1, pbA : 1..(MaxR + 1), vA : 0..1,
@@ -23,7 +25,7 @@ Configs ==
       /\ LegalFanConfig(c) }
 
 Memo(c) ==
-  LET fg == FanGeomOf(c)
+  LET fg == FG(c)
       cells == CellSeq(fg)
       raOff == RaOff(fg)
       segOff == SegOff(c)
@@ -50,20 +52,20 @@ M1(c) == LET cc == [GeomOf(c) EXCEPT !.minTang = -(c.N \div 2) + 1, !.maxTang = 
 \* M2: "fan size and max ring difference after gap removal": every used bin without virtual crystal
 \* has its entry inside the fan data
 M2(c, mm) == \A j \in 1..Len(mm.bins) :
-               (UsedBin(c, mm.bins[j]) /\ ~IsGapPair(c, PairOfBin(c, mm.bins[j]))) => IsCell(FanGeomOf(c), CellOfBin(c, mm.bins[j]))
+               (UsedBin(c, mm.bins[j]) /\ ~IsGapPair(c, PairOfBin(c, mm.bins[j]))) => IsCell(FG(c), CellOfBin(c, mm.bins[j]))
 \* M3: entries <-> bins: the entry of a bin and the exchanged entry hold that bin; an entry that
 \* holds a bin is the entry of that bin or the exchanged one (bijection up to the exchange)
 M3(c, mm) ==
   /\ \A j \in 1..Len(mm.bins) :
        mm.cellIdx[j] > 0 =>
           /\ mm.binIdx[mm.cellIdx[j]] = j
-          /\ mm.binIdx[CellIndex(FanGeomOf(c), mm.raOff, SwapCell(mm.cells[mm.cellIdx[j]]))] = j
+          /\ mm.binIdx[CellIndex(FG(c), mm.raOff, SwapCell(mm.cells[mm.cellIdx[j]]))] = j
   /\ \A i \in 1..Len(mm.cells) :
        mm.binIdx[i] > 0 =>
           /\ mm.cellIdx[mm.binIdx[i]] > 0
           /\ mm.cells[mm.cellIdx[mm.binIdx[i]]] \in { mm.cells[i], SwapCell(mm.cells[i]) }
   \* the canonical orders are what the index formulas say
-  /\ \A i \in 1..Len(mm.cells) : IsCell(FanGeomOf(c), mm.cells[i]) /\ CellIndex(FanGeomOf(c), mm.raOff, mm.cells[i]) = i
+  /\ \A i \in 1..Len(mm.cells) : IsCell(FG(c), mm.cells[i]) /\ CellIndex(FG(c), mm.raOff, mm.cells[i]) = i
   /\ \A j \in 1..Len(mm.bins) : BinIndex(c, mm.segOff, mm.bins[j]) = j
   /\ Len(mm.bins) = NumBins(c)
 \* M4: conversion to fan data and back is lossless (data with a distinct value per bin)
